@@ -68,10 +68,10 @@ Proof. exact DStoreRefine.ex_history_ok. Qed.
 Print Assumptions c02_history_nonvacuous.
 
 (* ---------------------------------------------------------------------------------------------- *)
-(* REGENERATED FROM THE SOURCE ON EVERY RUN (tools/gen -> Generated.g_code; Decisions.v): the decisions the model
+(* REGENERATED FROM THE SOURCE ON EVERY RUN (tools/gen -> Generated.g_code; DecBase.v, Dec*.v): the decisions the model
    takes at these points are the evaluations of the conditions the Go source has there, for all values of their
    variables. *)
-From GK Require Import GExpr Generated Decisions.
+From GK Require Import GExpr Generated DecBase DecWrite DecFlush.
 From Coq Require Import String.
 
 (* Flush writes only what is not yet persisted (Disk.write_items / write_nodes skip persisted nodes and items) *)
@@ -80,19 +80,19 @@ Theorem c02_write_skips_persisted_is_source :
     forall isnil persisted : bool,
       let rho := upd (upd env0 "nloc" (b2z (negb isnil))) "nloc.Loc().isEmpty()" (b2z (negb persisted)) in
       gtrue rho c1 = Some (isnil || persisted) /\ gtrue rho c2 = Some (isnil || persisted).
-Proof. exact Decisions.write_skips_persisted. Qed.
+Proof. exact DecWrite.write_skips_persisted. Qed.
 Print Assumptions c02_write_skips_persisted_is_source.
 
 Theorem c02_item_written_once_is_source :
   exists c, hd_error (conds 400 (body "itemLoc.write")) = Some c /\
     forall empty : bool, gtrue (upd env0 "iloc.Loc().isEmpty()" (b2z empty)) c = Some empty.
-Proof. exact Decisions.item_written_once. Qed.
+Proof. exact DecWrite.item_written_once. Qed.
 Print Assumptions c02_item_written_once_is_source.
 
 Theorem c02_node_written_once_is_source :
   exists c, hd_error (conds 400 (body "nodeLoc.write")) = Some c /\
     forall notnil empty : bool, gtrue (upd (upd env0 "nloc" (b2z notnil)) "loc.isEmpty()" (b2z empty)) c = Some (notnil && empty).
-Proof. exact Decisions.node_written_once. Qed.
+Proof. exact DecWrite.node_written_once. Qed.
 Print Assumptions c02_node_written_once_is_source.
 
 (* Flush has no way out other than its two guards and a write error: it always ends by writing the root record, for
@@ -103,11 +103,11 @@ Theorem c02_flush_always_writes_roots_is_source :
   hd (SOther "") (body "Store.writeRoots") = SAssign [GVar "sJSON"; GVar "err"] ":=" [GCall "json.Marshal" [GVar "rnls"]] /\
   before "c.rootAddRef" "coll[name].write" (call_list "Store.Flush") = true /\
   before "coll[name].write" "s.writeRoots" (call_list "Store.Flush") = true.
-Proof. exact Decisions.flush_always_writes_roots. Qed.
+Proof. exact DecFlush.flush_always_writes_roots. Qed.
 Print Assumptions c02_flush_always_writes_roots_is_source.
 
 Theorem c02_write_roots_order_is_source :
   Forall (fun c => c = GBin "!=" (GVar "err") GNil) (conds 400 (body "Store.writeRoots")) /\
   before "s.file.WriteAt" "atomic.StoreInt64" (call_list "Store.writeRoots") = true.
-Proof. exact Decisions.write_roots_order. Qed.
+Proof. exact DecFlush.write_roots_order. Qed.
 Print Assumptions c02_write_roots_order_is_source.
